@@ -136,9 +136,10 @@ def run(chk):
         plan = [(0, 2500)] * 300 + [(1, 6000)] * 80 + [(2, 12000)] * 30 + [(3, 16000)] * 8
         plan_san = [(0, 1500)] * 48 + [(1, 5000)] * 16 + [(2, 9000)] * 6 + [(3, 14000)] * 2
     else:
-        plan = [(0, 4000)] * 1200 + [(1, 8000)] * 320 + [(1, 40000)] * 48 + [(2, 16000)] * 128 + [(2, 70000)] * 32 + \
-               [(3, 26000)] * 32 + [(3, 100000)] * 8
-        plan_san = [(0, 3000)] * 320 + [(1, 8000)] * 128 + [(1, 40000)] * 16 + [(2, 16000)] * 48 + [(2, 70000)] * 8 + [(3, 26000)] * 8
+        plan = [(0, 4000)] * 6000 + [(1, 8000)] * 1600 + [(1, 40000)] * 240 + [(2, 16000)] * 640 + [(2, 70000)] * 160 + \
+               [(3, 26000)] * 160 + [(3, 100000)] * 40
+        plan_san = [(0, 3000)] * 1600 + [(1, 8000)] * 640 + [(1, 40000)] * 64 + [(2, 16000)] * 240 + [(2, 70000)] * 32 + \
+                   [(3, 26000)] * 32 + [(3, 100000)] * 8
     stats, b1 = poolcorr.run_generated(chk.seed, plan, c_rel, lean_exe, cls, libsizes)
     bad += [(l, d, "generated, release build") for l, d in b1]
     st_san, b2 = poolcorr.run_generated(chk.seed + 7919, plan_san, c_san, lean_exe, cls, libsizes)
